@@ -211,6 +211,10 @@ void make_scratch()
   std::filesystem::create_directory_symlink(scratch / "dir", scratch / "symdir", ec);         // a link to a directory
   std::filesystem::create_symlink(scratch / "symfile", scratch / "symsym", ec);               // link -> link -> file5
   (void)::mkfifo((scratch / "fifo").c_str(), 0600);                                           // exists, not a regular file
+  // a file whose name has a blank, a newline and bytes that are not UTF-8
+  { std::ofstream f(scratch / "we ird\n\xff\xfe"); f << "1234567"; }
+  // relative paths are resolved against the scratch directory
+  if (::chdir(scratch.c_str()) != 0) {}
   // a directory with two files, a sub-directory holding one file, and a dangling link
   std::filesystem::create_directory(scratch / "dir2");
   { std::ofstream f(scratch / "dir2" / "a"); f << "a"; }
